@@ -19,3 +19,81 @@ Definition w_value_pos (c : wcase) : bool := match wproduced c with Some t => vp
 Definition w_no_stub (c : wcase) : bool := match wproduced c with Some t => no_stub_b N t | None => true end.
 (* informative (not C10): the reader's grouping by generation tiles as well, value positions distinct *)
 Definition w_reader (c : wcase) : bool := match wproduced c with Some t => reader_ok_b N t | None => true end.
+
+(* ---- (2) the real TraceHandler driven by a driver forest ---- *)
+Definition ops_vsel (id : N) (v : vsel) : hop := match v with VPos p => OpIterStartPos id p | VNth k => OpIterStartNth id k end.
+Definition ops_call (c : call_drive string) : list hop :=
+  match c with
+  | CallAuto d up => [OpCallAuto d up]
+  | CallRaw None => [OpCallStart]
+  | CallRaw (Some st) => [OpCallStart; OpCallEnd st]
+  end.
+Definition ops_ap (a : ap_drive) : list hop :=
+  match a with ApAuto d => [OpApAuto d] | ApRaw g => [OpApStart; OpApEnd g] end.
+Definition ops_canon (c : canon_drive string) : list hop :=
+  match c with
+  | CanonAuto d up => [OpCanonAuto d up]
+  | CanonRaw None => [OpCanonStart]
+  | CanonRaw (Some st) => [OpCanonStart; OpCanonEnd st]
+  end.
+
+(* the meet_* call sequence of a driver forest, as ops of HandlerCases.v *)
+Fixpoint ops_dt (d : dt string) : list hop :=
+  match d with
+  | DCall c => ops_call c
+  | DAp a => ops_ap a
+  | DCanon c => ops_canon c
+  | DPar l r => [OpParStart] ++ ops_dts l ++ [OpParEnd true] ++ ops_dts r ++ [OpParEnd false]
+  | DFold id gs => [OpFoldStart id] ++ ops_gens id gs ++ [OpFoldEnd id]
+  end
+with ops_dts (ds : dts string) : list hop :=
+  match ds with
+  | DNil => []
+  | DCons d r => ops_dt d ++ ops_dts r
+  end
+with ops_gens (id : N) (gs : gens string) : list hop :=
+  match gs with
+  | GNil => []
+  | GCons v b r => [ops_vsel id v] ++ ops_body id b ++ [OpGenEnd id] ++ ops_gens id r
+  end
+with ops_body (id : N) (b : body string) : list hop :=
+  match b with
+  | BPlain ds => ops_dts ds
+  | BHole ds hl after => ops_dts ds ++ ops_hole id hl ++ ops_dts after
+  end
+with ops_hole (id : N) (hl : hole string) : list hop :=
+  match hl with
+  | HNextMore v b back => [OpIterEnd id; ops_vsel id v] ++ ops_body id b ++ (if back then [OpBackIter id] else [])
+  | HNextEnd last => [OpIterEnd id; OpBackIter id] ++ ops_dts last
+  | HParL b r => [OpParStart] ++ ops_body id b ++ [OpParEnd true] ++ ops_dts r ++ [OpParEnd false]
+  | HParR l b => [OpParStart] ++ ops_dts l ++ [OpParEnd true] ++ ops_body id b ++ [OpParEnd false]
+  end.
+
+Record wtcase := { wt_tree : dts string; wt_case : hcase }.
+
+(* the handler model, run on the op sequence of the tree, against what the implementation did under the
+   generator's op sequence (a difference between the two flattenings shows as a disagreement) *)
+Definition wt_model (c : wtcase) : bool :=
+  let k := wt_case c in
+  check_case {| hc_prev := hc_prev k; hc_cur := hc_cur k; hc_ops := ops_dts (wt_tree c);
+                hc_obs := hc_obs k; hc_result := hc_result k |}.
+(* [drive] (the function the C10 theorems are about) against the implementation's result trace *)
+Definition wt_drive (c : wtcase) : bool :=
+  let k := wt_case c in
+  match drive string String.eqb (wt_tree c) (handler_from string (hc_prev k) (hc_cur k)) with
+  | Ok h => option_eqb (trace_eqb string String.eqb) (Some (result_trace string h)) (hc_result k)
+  | _ => match hc_result k with None => true | Some _ => false end
+  end.
+(* C10 on the real result: par and fold structure whenever the drive succeeded ... *)
+Definition wt_oracle_struct (c : wtcase) : bool :=
+  match hc_result (wt_case c) with Some t => wf_struct_b string t | None => true end.
+(* ... and the value_pos clause whenever every iteration was started at an earlier stream value entry *)
+Definition wt_oracle_value_pos (c : wtcase) : bool :=
+  let k := wt_case c in
+  match drive_chk string String.eqb (wt_tree c) (handler_from string (hc_prev k) (hc_cur k)), hc_result k with
+  | Ok _, Some t => vp_ok_b string t
+  | _, _ => true
+  end.
+Definition wt_succeeded (c : wtcase) : bool := match hc_result (wt_case c) with Some _ => true | None => false end.
+Definition wt_has_fold (c : wtcase) : bool :=
+  match hc_result (wt_case c) with Some t => existsb (fun s => match s with SFold (_ :: _) => true | _ => false end) t | None => false end.
